@@ -3,7 +3,7 @@
 Seam      django_components.util.template_parser.parse_template(src) (the function the
           patched Template.compile_nodelist feeds to Django's Parser) and, part B, the
           public route Template(src) with a debug and a non-debug engine.
-Alphabet  22 source fragments (FRAGMENT_NAMES): text, newline, {{ }}, {# #}, {% %} tags with
+Alphabet  23 source fragments (FRAGMENT_NAMES): text, newline, {{ }}, {# #}, {% %} tags with
           0..2 quoted strings (both quote kinds, escaped quote, embedded `%}` / `}}` /
           newline), a multi-line tag, verbatim openers / closers (plain, named, quoted name),
           unterminated constructs.  The fragments are uniquely decodable, so fragment
@@ -63,7 +63,7 @@ _NAMES = [("t", "u", "v", "c", "a", "q", "r"), ("x", "w", "n", "k", "b", "p", "s
 FRAGMENT_NAMES = [
     "T", "NL", "T_NL_T", "VAR", "VAR_OPEN", "COMMENT", "TAG", "TAG_DQ", "TAG_SQ", "TAG_DQ_CLOSE_INSIDE", "TAG_SQ_VARCLOSE_INSIDE",
     "TAG_DQ_ESCAPED", "TAG_MULTILINE_DQ", "TAG_DQ_DQ", "VERBATIM", "ENDVERBATIM", "VERBATIM_NAMED", "TAG_DQ_OPEN", "TAG_OPEN",
-    "TAG_DQ_CLOSE_NL_INSIDE", "VERBATIM_DQ", "ENDVERBATIM_DQ",
+    "TAG_DQ_CLOSE_NL_INSIDE", "VERBATIM_DQ", "ENDVERBATIM_DQ", "TAG_SQ_CLOSE_INSIDE",
 ]
 # every sequence of exactly L+1 fragments over this sub-alphabet is added to the full enumeration <= L
 DEEP = ["T", "NL", "VAR", "TAG", "TAG_DQ", "TAG_DQ_CLOSE_INSIDE", "TAG_MULTILINE_DQ", "TAG_DQ_CLOSE_NL_INSIDE", "VERBATIM", "ENDVERBATIM", "TAG_DQ_OPEN"]
@@ -94,6 +94,7 @@ def alphabet(seed: int):
         '{%% %s "%s%%}\n%s" %%}' % (a, q, r),
         '{%% verbatim "%s" %%}' % q,
         '{%% endverbatim "%s" %%}' % q,
+        "{%% %s '%s%%}%s' %%}" % (a, q, r),
     ]
     assert len(A) == len(FRAGMENT_NAMES)
     return A
